@@ -34,13 +34,19 @@ def floors(ctx):
     q = ctx.tier == "quick"
     return {"evaluations": 800 if q else 8000, "edges_checked": 2000 if q else 20000, "internal_selfloops": 100,
             "graphs_with_parallel": 50, "graphs_with_mixed_kinds": 50, "links_leaving_universe": 100,
-            "empty_universe": 3, "undirected_merged_pairs": 20, "universes_over_256_members": 1}
+            "empty_universe": 3, "undirected_merged_pairs": 20, "universes_over_256_members": 1, "cases_with_network_kwargs": 100}
 
 
-def run_case(ctx, spec, with_funcs):
+NETWORK_KWARGS = [None, {"directed": True}, {"directed": False}, {"cdn_resources": "local", "directed": True, "notebook": False}]
+
+
+def run_case(ctx, spec, with_funcs, nk=0):
     g = graphs.build(spec)
-    case = {"spec": spec, "funcs": with_funcs}
+    case = {"spec": spec, "funcs": with_funcs, "nk": nk}
     kw = dict(rvfunc=rv, refunc=re_) if with_funcs else {}
+    if NETWORK_KWARGS[nk] is not None:
+        kw["network_kwargs"] = dict(NETWORK_KWARGS[nk])
+        ctx.count("cases_with_network_kwargs")
     res = oracles.outcome(egpyvis.make_pyvis_net, g.uni, **kw)
     ctx.evaluated()
     if res[0] != "ok":
@@ -171,7 +177,7 @@ def run(ctx):
             spec["attrs"] = {str(i): {"color": "red", "weight": i * 1.5} for i in range(len(spec["verts"])) if i % 2}
         for f in graphs.features(spec):
             ctx.count("graphs_with_" + f)
-        run_case(ctx, spec, bool(n % 2))
+        run_case(ctx, spec, bool(n % 2), nk=(n // 2) % len(NETWORK_KWARGS) if n % 3 == 0 else 0)
         k += 1
         if k in (4, 150) and ctx.shard == 0:
             ctx.sample({"spec": spec, "callbacks": bool(n % 2)})
@@ -182,6 +188,6 @@ def run(ctx):
 
 
 def replay(ctx, case):
-    run_case(ctx, case["spec"], case["funcs"])
+    run_case(ctx, case["spec"], case["funcs"], case.get("nk", 0))
     ctx.nontrivial("replay-a")
     ctx.nontrivial("replay-b")
